@@ -1,7 +1,8 @@
 ----------------------------- MODULE Utf8Trace -----------------------------
 (* Predicate-mode check of observations recorded on the real ByteString (C20).                      *)
 (* Each record {"ev":"vec","s":bytes,"acc":all fallible constructors accepted,"rej":all rejected,   *)
-(* "split":[mids at which split_at returned on every value]} installs the observed string; the      *)
+(* "split":[mids at which split_at returned on every value], "eqp"/"neqp"/"eqs"/"neqs":[mids at     *)
+(* which the left/right half compared equal/unequal to the whole]} installs the observed string; the *)
 (* property predicate C20_ObservedAgrees is evaluated by TLC on every recorded state.               *)
 EXTENDS Utf8, IOUtils, TLCExt
 Rec == ndJsonDeserialize(IOEnv.TRACE)
@@ -25,6 +26,11 @@ C20_ObservedAgrees ==
     /\ obs.rej = (q # "S")
     /\ (q = "S" => Range(obs.split) = bnd)
     /\ (q # "S" => obs.split = <<>>)
+    \* Compare: a split_at half that shares storage with the whole equals it only when it IS the whole
+    \* (left half: mid = Len, right half: mid = 0); at every other boundary it compares unequal
+    /\ (q = "S" => /\ Range(obs.eqp) = {Len(s)} /\ Range(obs.neqp) = bnd \ {Len(s)}
+                   /\ Range(obs.eqs) = {0} /\ Range(obs.neqs) = bnd \ {0})
+    /\ (q # "S" => obs.eqp = <<>> /\ obs.neqp = <<>> /\ obs.eqs = <<>> /\ obs.neqs = <<>>)
 TraceAccepted ==
   LET n == TLCGet("stats").diameter - 1 IN
     /\ PrintT(<<"TRACE_MATCHED", n, Len(Rec)>>)
